@@ -42,6 +42,9 @@ fn frames() -> Vec<Argv> {
     vec![
         l("GET k"), l("get k"), l("GeT k"), l("SET k v"), l(&format!("SET k {V64}")), l("SET k v EX 100000"), l("INCR n"), l("MGET k k2"),
         l("DEL k"), l("LPUSH l a b"), l("LRANGE l 0 -1"), l("EXISTS k"), l("FOO bar"), l("GET"), l("GET k2"), l("set k2 w"), l("PING"),
+        // long keys: the batch collectors only look at a buffer of >= min_pipeline_buffer bytes, and a read boundary
+        // can then fall inside the key of a frame whose header and length line are already complete
+        l("GET a-key-that-is-thirty-bytes-long"), l("SET a-key-that-is-thirty-bytes-long v"),
     ]
 }
 
@@ -226,7 +229,7 @@ fn main() {
     // quick: all streams of <=2 frames over the whole alphabet + all streams of 3 frames over the 8
     // frames that matter most to the batch collectors / fast paths; thorough: <=3 over everything
     // + length 4 over the core frames
-    let core: Vec<usize> = vec![0, 1, 3, 4, 6, 13, 12, 7];
+    let core: Vec<usize> = vec![0, 1, 3, 4, 6, 13, 12, 7, 17, 18];
     let max_len_all = if thorough { 3 } else { 2 };
     let mut streams: Vec<Vec<usize>> = vec![];
     let mut cur: Vec<Vec<usize>> = vec![vec![]];
